@@ -6,6 +6,7 @@ package main
 
 import (
 	"bufio"
+	"bytes"
 	"encoding/json"
 	"flag"
 	"fmt"
@@ -34,6 +35,8 @@ func (t *Trace) Emit(rec interface{}) {
 	if err != nil {
 		fatal("marshal: %v", err)
 	}
+	// TLC's Json module cannot read null: a nil slice is an empty sequence (maps are always initialised by the callers)
+	b = bytes.ReplaceAll(b, []byte(":null"), []byte(":[]"))
 	t.w.Write(b)
 	t.w.WriteByte('\n')
 	t.N++
